@@ -115,3 +115,35 @@ Definition fault_of_chunks (chunks : list bytes) (k partial : nat) : bytes * boo
   | (acc, None) => (acc, true)
   | (acc, Some _) => (acc, false)
   end.
+
+(* ---- the FileWriter used directly (NewFileWriter; WriteHeader / AppendHeader / WriteBlock),
+   one FileWriter serving several io.Writers, the calls for the different files interleaved
+   in any order.  A FileWriter holds its sync marker, schema and codec name from NewFileWriter
+   on; nothing a call does changes them. *)
+Inductive fw_op :=
+| FwHeader (w : nat)                              (* WriteHeader(w) *)
+| FwAppend (buf : bytes)                          (* AppendHeader(buf): returns, writes nowhere *)
+| FwBlock (w : nat) (count : Z) (data : bytes).   (* WriteBlock(w, count, data) *)
+
+Section FileWriter.
+  Variable compress : bytes -> bytes.
+  Variable schema_json codec_name sync : bytes.
+
+  (* what the call hands to writer w *)
+  Definition fw_emit (w : nat) (op : fw_op) : bytes :=
+    match op with
+    | FwHeader w' => if Nat.eqb w w' then header_bytes schema_json codec_name sync else []
+    | FwAppend _ => []
+    | FwBlock w' n data => if Nat.eqb w w' then block_bytes sync n (compress data) else []
+    end.
+
+  (* what AppendHeader returns *)
+  Definition fw_append (buf : bytes) : bytes := buf ++ header_bytes schema_json codec_name sync.
+
+  (* everything writer w holds after the history *)
+  Definition fw_written (ops : list fw_op) (w : nat) : bytes := concat (map (fw_emit w) ops).
+
+  (* the calls that concern writer w, in order *)
+  Definition fw_for (w : nat) (op : fw_op) : bool :=
+    match op with FwHeader w' | FwBlock w' _ _ => Nat.eqb w w' | FwAppend _ => false end.
+End FileWriter.
